@@ -28,19 +28,29 @@ import ElvModel.C17.Covered
 import ElvProofs.C17.GoFn
 import ElvProofs.C17.Closure
 import ElvProofs.C17.Subseq
+import ElvProofs.C17.DocShow
+import ElvProofs.C17.ClosureSrc
 import ElvProofs.C01
+import ElvProofs.C03
 import ElvProofs.C06
 import ElvProofs.C07
 import ElvProofs.C11
 import ElvProofs.C13
+import ElvProofs.C14
 import ElvProofs.C18
+import ElvProofs.C19
 import ElvProofs.C20
+import ElvProofs.C28
+import ElvProofs.C30
 import ElvProofs.C31
 import ElvProofs.C34
+import ElvProofs.C35
 import ElvProofs.C37
 import ElvProofs.C38
 import ElvProofs.C41
+import ElvProofs.C40
 import ElvProofs.C42
+import ElvProofs.C43
 import ElvProofs.C44
 open Go C17
 
@@ -233,6 +243,90 @@ Witness in `harness/corpus/C17.txt`. -/
 theorem C17_counterexample : hasSubseq false [0xFF] [0xEF, 0xBF, 0xBD] = .panic "slice bounds out of range" := by
   decide
 
+/-! ## 3a. `doc:find` highlighting (pkg/mods/doc/match.go) — round 2 -/
+
+/-- `sortAndMergeMatches`, for ANY outcome of `sort.Slice` that meets its
+contract (a permutation ordered by `From`, stable or not): on a non-empty slice
+of matches lying inside a text of `n` bytes the loop never indexes out of
+range (`rs[j]`, `rs[j-1]`, `rs[i]`, `rs[i] = …`, `rs[:i+1]`), and what it
+returns is ORDERED AND NON-OVERLAPPING — every range ends strictly before the
+next one starts — non-empty and inside the text. -/
+theorem C17_docfind_merge_no_panic (sort : List Ranging → List Ranging) (hsort : SortContract sort) (n : Int)
+    (rs : List Ranging) (hne : rs ≠ []) (hvalid : ∀ r ∈ rs, r.Valid n) :
+    ∃ out, sortAndMergeMatches sort rs = .ok out ∧ Sep n 0 out ∧ out ≠ [] ∧ out.length ≤ rs.length :=
+  sortAndMergeMatches_ok sort hsort n rs hne hvalid
+
+/-- non-vacuity: the sort of the driver meets the contract; three nested /
+chained matches (`doc:find 'whose documentation contains all strings' contains strings`
+has this shape) are merged into separated ranges -/
+example : SortContract stableSortByFrom := stableSortByFrom_contract
+example : mergeSorted [⟨0, 10⟩, ⟨2, 4⟩, ⟨6, 8⟩] = .ok [⟨0, 4⟩, ⟨6, 8⟩] := by decide
+example : C17.Sep 12 0 [⟨0, 4⟩, ⟨6, 8⟩] := by simp [C17.Sep]
+/-- an empty slice does panic (`rs[:1]`): `match` only calls it for `len(bMatches[i]) > 0` -/
+example : mergeSorted [] = .panic "slice bounds out of range" := by decide
+
+/-- `matchedBlock.Show` (both branches, with `firstSentenceStart`,
+`lastSentenceStart`, `firstLineEnd`, `lastLineStart`): on ordered,
+non-overlapping matches inside the text every one of the fourteen slice
+expressions is in range, whatever `ui.T(…).String()` renders. -/
+theorem C17_docfind_show_no_panic (styled : Bytes → Bytes) (b : MatchedBlock)
+    (h : Sep b.block.text.length 0 b.isMatches) : ∃ out, showBlock styled b = .ok out :=
+  showBlock_ok styled b h
+
+/-- "ab. cd ef" with `cd` matched: `… ` + sentence start + styled match + rest -/
+example : showBlock styledBoldRed ⟨⟨[97, 98, 46, 32, 99, 100, 32, 101, 102], false⟩, [⟨4, 6⟩]⟩ =
+    .ok ([0xE2, 0x80, 0xA6, 32] ++ [27, 91, 59, 49, 59, 51, 49, 109, 99, 100, 27, 91, 109] ++ [32, 101, 102]) := by decide
+/-- the separation matters: the ranges `[0,10) [6,8)` that the seeded change
+`rs[i].To = max(rs[i].To, rs[j].To)` returns for the matches above make `Show`
+evaluate `Text[10:6]` -/
+example : showBlock styledBoldRed ⟨⟨[97, 98, 99, 100, 101, 102, 103, 104, 105, 106, 107, 108], false⟩, [⟨0, 10⟩, ⟨6, 8⟩]⟩ =
+    .panic "slice bounds out of range" := by decide
+
+/-- The whole `findIn` of `doc:find` from the rendered blocks on — `match`
+(`bMatches[i]` ×4), `sortAndMergeMatches`, `Show` of every matched block — never
+panics, for any blocks (arbitrary bytes), any queries (empty, overlapping,
+nested, repeated) and any `sort.Slice` meeting its contract. -/
+theorem C17_docfind_no_panic (sort : List Ranging → List Ranging) (hsort : SortContract sort)
+    (styled : Bytes → Bytes) (bs : List Block) (qs : List Bytes) :
+    ∃ r, docFindIn sort styled bs qs = .ok r :=
+  docFindIn_ok sort hsort styled bs qs
+
+/-- three queries, one containing another, a third starting inside the container after the contained one ended -/
+example : docFindIn stableSortByFrom id [⟨[97, 98, 99, 100, 101, 102, 103, 104, 105, 106, 107, 108], false⟩]
+    [[97, 98, 99, 100, 101, 102, 103, 104, 105, 106], [99, 100], [103, 104]] =
+    .ok (some [[97, 98, 99, 100] ++ [101, 102] ++ [103, 104] ++ [105, 106, 107, 108]]) := by decide
+
+/-! ## 3b. `closure[def]` / `closure[body]` (pkg/eval/closure.go) — round 2 -/
+
+/-- For every source (arbitrary bytes): the parser returns a tree, and for every
+lambda of it `Src.Code[DefRange.From:DefRange.To]` and
+`Src.Code[op.Range().From:op.Range().To]` (the `Chunk` child) are in range;
+`closure[def]` is the lambda's own text.  Rests on C01 (node ranges lie inside
+the source) and on reading `lambdaOp.exec`, the only place a `Closure` is made
+(tied by the `closrc` ops). -/
+theorem C17_closure_src_fields_no_panic (isPrint : Int → Bool) (src : Bytes) :
+    ∃ t errs, C01.parse isPrint src = .ok t errs ∧
+      (∀ m, C01_Desc t m → closureSrcSlice src m = .ok m.text) ∧
+      ∀ lam ∈ lambdasOf t, ∃ r, closureDefBody src lam = .ok r ∧ r.1 = lam.text := by
+  obtain ⟨t, errs, hp, hall, _⟩ := C01_total_lossless isPrint src
+  exact ⟨t, errs, hp, fun m hm => closureSrcSlice_ok src m (hall m hm),
+    fun lam hl => closureDefBody_ok src t lam hall hl⟩
+
+/-! ## 3c. the replaced range of completion (pkg/edit/completion.go `completionStart`) — round 2 -/
+
+/-- `s.Buffer.Content[result.Replace.From:result.Replace.To]`: whenever
+`complete.Complete` answers, the slice is in range (C43: the replaced range lies
+within the buffer).  The buffer sliced is the buffer completed: both are read on
+the editor's event-loop goroutine (C32) with nothing in between. -/
+theorem C17_completion_replace_no_panic (env : C43.Env) (src : Bytes) (dot : Int) (r : C43.Result)
+    (h : C43.complete env src dot = .result r) : ∃ rep, slice src r.frm r.to = .ok rep := by
+  obtain ⟨h1, h2⟩ := C43_range env src dot r h
+  unfold slice
+  have : (0 : Int) ≤ (r.frm : Int) ∧ (r.frm : Int) ≤ (r.to : Int) ∧ (r.to : Int) ≤ (src.length : Int) :=
+    ⟨by omega, by omega, by omega⟩
+  rw [if_pos this]
+  exact ⟨_, rfl⟩
+
 /-! ## 4. Panic-freedom of the models of the other properties -/
 
 /-- parser (C01): `parse.Parse…` on any bytes, any fuel. -/
@@ -328,7 +422,7 @@ theorem C17_str_replace_no_panic (max : Int) (old repl s : Bytes) : ∃ r, C41.s
 theorem C17_redir_no_panic (st : C42.St) (rs : List C42.Redir)
     (h : ∀ (i : Nat) (f : C42.Fop), st.fops[i]? = some f → f.chan = false) :
     ∃ s, C42.execRedirs C42.Cfg.fixed st rs = .ok s :=
-  C42_no_panic_partial st rs h
+  C42_no_panic_without_owned_channel st rs h
 
 /-- redirections (C42): every fd value gives an exception or an index for which both tables grow. -/
 theorem C17_redir_fd_in_range (st : C42.St) (r : C42.Redir) :
@@ -347,6 +441,59 @@ theorem C17_lsp_answers_every_request (empty : C44.Doc) (s : C44.Server) (hasId 
     (he : empty.wf) (hs : s.wf) (hr : r.wf) :
     ∃ o, C44.serve .fixed empty s hasId r = .ok o ∧ o.srv.wf ∧ (o.reply = .none ↔ hasId = false) :=
   C44_answers_every_request empty s hasId r he hs hr
+
+/-! ### imported in round 2 -/
+
+/-- `parse.Quote` / `QuoteAs` / `QuoteCommandName` / `QuoteVariableName` (C03; `repr`, `to-string` of
+containers, error messages of every builtin): total on arbitrary bytes. -/
+theorem C17_quote_no_panic (isPrint : Int → Bool) (s : Bytes) (q : Int) :
+    (∃ text ty, C03.QuoteAs isPrint s q = .ok (text, ty)) ∧ (∃ text, C03.Quote isPrint s = .ok text) ∧
+    (∃ text, C03.QuoteCommandName isPrint s = .ok text) ∧ (∃ text, C03.QuoteVariableName isPrint s = .ok text) :=
+  C03_quote_total isPrint s q
+
+/-- element assignment and `del` (C14): no Go-panic branch (index arithmetic, nil containers, `ends[level]`). -/
+theorem C17_assign_no_panic (σ : C14.Store) (temp : Bool) (lv : C14.LV) (r : C14.Rhs) (w : String)
+    (hdecl : (σ.get lv.head).isSome) (hrhs : ∀ x p, r = .ref x p → (σ.get x).isSome) :
+    (C14.exec σ (.assign temp [lv] [r])).err ≠ some (.panic w) ∧
+    (lv.idx ≠ [] → (C14.exec σ (.del lv)).err ≠ some (.panic w)) :=
+  C14_set_del_no_panic σ temp lv r w hdecl hrhs
+
+/-- `peach` while the evaluation is interrupted (C19): never "semaphore: released more than held". -/
+theorem C17_peach_interrupt_no_panic (tr : List C19.Label) (s : C19.State) (h : C19.Run tr s) :
+    ∀ i ∈ s.insts, ∀ K, i.cfg.k = some K → i.st.running ≤ K ∧ i.st.panicked = false :=
+  C19_bound_while_interrupted tr s h
+
+/-- editor buffer commands (C28): no sequence of keys, paste markers and builtin commands panics
+(the slice expressions of the movers, kill commands and abbreviation expansion). -/
+theorem C17_editor_events_no_panic (E : C28.Env) (S : C28.Spec) (hS : C28.SpecOK S) (b : C28.CodeBuffer)
+    (hb : C28.Boundary b.content b.dot) (evs : List C28.Event) :
+    ∃ s', C28.runEvents E S (C28.initState b) evs = .ok s' ∧ C28.Boundary s'.buffer.content s'.buffer.dot :=
+  C28_sequence_safe E S hS b hb evs
+
+/-- syntax highlighting (C30): `highlight` on regions inside the code, any sort order `sort.Slice` may produce. -/
+theorem C17_highlight_no_panic (code : Bytes) (hasCmd : Bool) (regions sorted : List C30.Region)
+    (hin : ∀ r ∈ regions, C30.InBounds code.length r) (hs : C30.SortedPerm regions sorted) :
+    ∃ t cmds, C30.highlight code hasCmd sorted = .ok (t, cmds) := by
+  obtain ⟨t, cmds, h, _⟩ := C30_highlight_total_lossless code hasCmd regions sorted hin hs
+  exact ⟨t, cmds, h⟩
+
+/-- the late restyling goroutine of the highlighter (C30): `newText[cmdRegion.seg]` is in range. -/
+theorem C17_highlight_late_no_panic (code : Bytes) (hasCmd : Bool) (sorted : List C30.Region) (t : C30.Text)
+    (cmds : List C30.CmdRegion) (answers : List Bool) (h : C30.highlight code hasCmd sorted = .ok (t, cmds)) :
+    ∃ t', C30.restyle t cmds answers = .ok t' := by
+  obtain ⟨t', h', _⟩ := C30_late_restyle_no_panic code hasCmd sorted t cmds answers h
+  exact ⟨t', h'⟩
+
+/-- Markdown emphasis processing (C35, `md:show`, `doc:show`, `doc:find`): `Text[1:]` / `Text[2:]` stay in range. -/
+theorem C17_md_emph_no_panic (G : C35.GoU) (text : Bytes) : C35.renderEmph G text ≠ .panic :=
+  fun h => (C35_emph_total G text).2 h
+
+/-- stage epilogue of a pipeline form (C40, `formOwnedPort.close` over `newFm.ports[i]`): no nil port is
+dereferenced, whether the form ended normally, a redirection failed half-way or the body raised. -/
+theorem C17_form_cleanup_no_nil_deref (f : C40.Form) (hf : f.noBg = true) (w : C40.World) (ports : C40.Ports)
+    (fops : C40.Fops) (B : Nat → Prop) (h : C40.FormInv w ports fops B) :
+    (C40.runStage C40.Cfg.fixed w ports fops f).1.panics = w.panics :=
+  (C40_form_closes_exactly_what_it_owns f hf w ports fops B h).2.2.2
 
 /-! ## 5. The covered set -/
 
@@ -368,12 +515,19 @@ def C17_covered : Prop :=
   (∀ (c : Closure) (args : List Nat) (opts : List (Nat × Nat)),
     (-1 ≤ c.restArg ∧ c.restArg < c.nArgs) → c.optDefaults.length = c.optNames.length →
       ∃ r, closureCall c args opts = .ok r) ∧
-  (∀ s t : Bytes, ∃ b, hasSubseq true s t = .ok b)
+  (∀ s t : Bytes, ∃ b, hasSubseq true s t = .ok b) ∧
+  (∀ (sort : List Ranging → List Ranging), SortContract sort → ∀ (styled : Bytes → Bytes) (bs : List Block)
+    (qs : List Bytes), ∃ r, docFindIn sort styled bs qs = .ok r) ∧
+  (∀ (isPrint : Int → Bool) (src : Bytes), ∃ t errs, C01.parse isPrint src = .ok t errs ∧
+    ∀ lam ∈ lambdasOf t, ∃ r, closureDefBody src lam = .ok r)
 
 theorem C17_covered_partial : C17_covered :=
   ⟨C17_goFn_call_no_panic, C17_goFn_reflect_call_precondition,
    fun c args opts h1 h2 => (C17_closure_call_no_panic c args opts h1 h2).imp fun _ h => h.1,
-   C17_hasSubseq_no_panic⟩
+   C17_hasSubseq_no_panic, C17_docfind_no_panic,
+   fun isPrint src => by
+     obtain ⟨t, errs, hp, _, hl⟩ := C17_closure_src_fields_no_panic isPrint src
+     exact ⟨t, errs, hp, fun lam h => (hl lam h).imp fun _ h => h.1⟩⟩
 
 /-! ## 6. Every theorem the inventory may name exists -/
 
